@@ -209,7 +209,7 @@ def bv_rotate_left(a, b, size):
     based on a C implementation.
 
     Therefore, the rotation will be computed as
-    a << (b & (size - 1))) | (a >> (size - (b & (size - 1))))
+    a << (b % size)) | (a >> (size - (b % size)))
 
     :param a: bit vector
     :param b: bit vector
@@ -219,8 +219,8 @@ def bv_rotate_left(a, b, size):
     # define constant
     s = bit_vec_val(size, size)
 
-    # shift = b & (size  - 1)
-    shift = bvand(b, bvsub(s, bit_vec_val(1, size)))
+    # shift = b % size (size may not be a power of 2)
+    shift = bvurem(b, s)
 
     # (a << shift) | (a >> size - shift)
     rotate = bvor(bvshl(a, shift),
@@ -238,7 +238,7 @@ def bv_rotate_right(a, b, size):
     based on a C implementation.
 
     Therefore, the rotation will be computed as
-    a >> (b & (size - 1))) | (a << (size - (b & (size - 1))))
+    a >> (b % size)) | (a << (size - (b % size)))
 
     :param a: bit vector
     :param b: bit vector
@@ -248,8 +248,8 @@ def bv_rotate_right(a, b, size):
     # define constant
     s = bit_vec_val(size, size)
 
-    # shift = b & (size  - 1)
-    shift = bvand(b, bvsub(s, bit_vec_val(1, size)))
+    # shift = b % size (size may not be a power of 2)
+    shift = bvurem(b, s)
 
     # (a >> shift) | (a << size - shift)
     rotate = bvor(bvlshr(a, shift),
